@@ -238,6 +238,9 @@ def k3_handler_ops(res, tier):
         summarize_paths(res, e, results, lambda r: r.info if isinstance(r.info, dict) else None, key_prefix=f'C04.K3:{opname}:', unwind_ok=False)
 
 
+F50_SRC = ('fn cb(x) { try { raise Error("a"); } catch e: RuntimeError { print("wrong"); } return x; }\ntry { print([1].iter().map(cb).into(List.collect)); }\n'
+           'catch e: Error { print("caught", e.message); }\nprint("done");\n')
+F50_REPLAY = dict(kind='lay', source=F50_SRC, expect_stdout='caught a\ndone\n')
 F35_SRC = ('fn f(x) { raise Error("stop"); }\ntry {\n  [1, 2].iter().map(f).list();\n} catch e: Error {\n  print("caught");\n}\nprint("after");\n')
 F35_REPLAY = dict(kind='lay', source=F35_SRC, expect_stdout='caught\nafter\n', bad_exit=[1])
 
@@ -270,12 +273,26 @@ def k2_unwind(res, tier):
             e.assume(z3.ULT(hoff, st.code_len))
             e.assume(z3.ULT(hslot, 1 << 16))
         ctx = Ref(st.vm_cell)
+        sdef = P.enum_def('fiber::FiberState')
+        was_unwinding = e.fork_bool(z3.Bool('search_continues_after_ContinueUnwind'))
+        if was_unwinding and not has:
+            pass        # ContinueUnwind popped the last handler: allowed
+        st.fiber.f[W.fib_idx['state']] = Cell(EnumV('fiber::FiberState', sdef.vindex['Unwinding' if was_unwinding else 'Running'], None, None, sdef))
         r = e.call(f, [Ref(Cell(st.fiber)) if False else _fiber_ref(st), ctx, bottom])
         rn = r.variant_name() if isinstance(r, EnumV) else None
         btag = bottom.tag if isinstance(bottom.tag, int) else e.concretize(bottom.tag, [0, 1])
         bval = bottom.field(e, 'Some', 0, 'usize').get(e) if btag == 1 else None
+        def stopped_state():
+            # the search ends at the native boundary and native code goes on running: the error it hands back (set_error) must meet a
+            # fiber that is no longer "evaluating the clauses of a handler", or set_error would discard a handler of the caller (C04.K6)
+            stf = st.fiber.f[W.fib_idx['state']].get(e) if W.fib_idx['state'] in st.fiber.f else None
+            e.check(isinstance(stf, EnumV) and isinstance(stf.tag, int) and stf.variant_name() != 'Unwinding',
+                    'an unwind stopped at the native boundary leaves the fiber out of the Unwinding state (the handlers beyond the boundary are not being evaluated)',
+                    {'state_after': stf.variant_name() if isinstance(stf, EnumV) and isinstance(stf.tag, int) else 'symbolic'})
         if not has:
             e.check(rn == ('UnwindStopped' if btag == 1 else 'Unhandled'), 'without handlers: Unhandled, or UnwindStopped inside a native call')
+            if rn == 'UnwindStopped':
+                stopped_state()
             return {'case': 'no handler', 'result': rn}
         # the boundary: run_fun / run_method / runtime_error record frames.len() of the code that called into native code BEFORE the
         # callee frame is pushed (C18.K2.run_fun_signals decides that on the real run_fun); a handler registered by one of those
@@ -284,6 +301,8 @@ def k2_unwind(res, tier):
         if btag == 1 and e.fork_bool(z3.ULE(hdepth, bval)):
             e.check(rn == 'UnwindStopped', 'a handler of the code that called into native code (at or below the native boundary) is not used by the nested run',
                     {'handler_depth_equals_boundary': e.is_valid(hdepth == bval)})
+            if rn == 'UnwindStopped':
+                stopped_state()
             return {'case': 'at or below native boundary', 'result': rn}
         e.check(rn == 'PotentiallyHandled', 'the innermost handler is chosen')
         frame_ptr = e.as_seqptr(e, st.fiber.f[W.fib_idx['frame']].get(e))
@@ -300,6 +319,11 @@ def k2_unwind(res, tier):
     results = e.explore(path)
     for r in results:
         for lab, ok, info in list(r.checks):
+            if not ok and 'leaves the fiber out of the Unwinding state' in lab:
+                res.fail('C04.K2:an unwind stopped at the native boundary leaves the fiber Unwinding',
+                         'after a non-matching catch inside a native callback (ContinueUnwind) the nested search stops at the boundary with the fiber still Unwinding; '
+                         'when the native hands the error on, set_error takes the caller\'s innermost handler for "the handler being evaluated" and discards it', info, replay=F50_REPLAY)
+                r.checks.remove((lab, ok, info))
             if not ok and 'at or below the native boundary' in lab:
                 res.fail('C04.K2:handler of the frame that invoked a stack-less native is run inside the nested execution',
                          'Fiber::stack_unwind accepts a handler whose call_frame_depth equals the native boundary: an error raised in a callback of a '
